@@ -110,7 +110,7 @@ def end_to_end(rep, accs, tier, sd, wd):
     rounds = 1 if q else 2
     idxs = list(range(n * rounds))
     fullset = set() if q else {0, n // 2, n + 5}
-    jobs = [('probe', name, os.path.join(wd, name)) for name in ('probe_dec_counter_zero', 'probe_short_pulse', 'probe_short_gap')]
+    jobs = [('probe', name, os.path.join(wd, name)) for name in ('probe_dec_counter_zero', 'probe_short_pulse', 'probe_zero_gap_pause')]
     for j in jobs:
         os.makedirs(j[2], exist_ok=True)
     # full-product tapes first so that they do not end up at the tail of the schedule
@@ -187,12 +187,6 @@ def end_to_end(rep, accs, tier, sd, wd):
         u = c['runs'][int(ri) - 1]
         lead = [v for v in c['runs'] if v['cls'] == u['cls']][0]
         kind = c['key'].split('/dly')[0] if c['key'].startswith('custom/') else c['key']
-        if kind == 'probe/short-gap':
-            # not counted as a violation: the lead decides whether "pause=0/1 identical" is meant for tapes without gaps
-            rep.drift += 1
-            rep.extra['short_gap_observation'] = ('tape %s: [%s] vs [%s]: %s differs (R %d/%d T %d/%d); the tape loads in both'
-                                                  % (c['gen']['how'], u['cfg'], lead['cfg'], cl, u['r'], lead['r'], u['t'], lead['t']))
-            continue
         slim = dict(c)
         slim['runs'] = [{k: v for k, v in x.items() if k != 'pages'} for x in (c['runs'][0], lead, u)]
         rep.violation('e2e:%s:%s:%s' % (kind, cl, u['cfg']),
@@ -234,6 +228,8 @@ def run(tier):
         'all RAM is compared through CRC-32 of every 256-byte page',
         'runs are compared with --start (DESIGN note); polarity / first-edge select the tape-side environment and are compared only inside '
         'their own environment; an environment whose default run does not load the tape is dropped (counted as drift)',
+        'generated tapes keep at least 400 ms between blocks; zero-gap blocks are covered only by the deterministic probe '
+        'e2e:probe/zero-gap-pause (pause=0 vs pause=1)',
         'obligations start every sampling loop at its first byte with the registers the loop itself assumes (EAR mask register, C=0xFE for '
         'IN r,(C)); pulses shorter than one loop period between two samples are outside the model',
     ]
